@@ -21,6 +21,7 @@ struct TL : Listener {
 std::string traceOf(const Case &c, const std::string &scratch, const TraceOpts &o) {
     std::string out;
     Interp in(scratch);
+    in.pathStyle = o.pathStyle; in.pathTag = o.pathTag;
     in.openFindings = {"KF-D20", "KF-GAPCOL"};      // same exclusions for every build / thread
     TL L(out, o); in.L = &L;
     Case c2 = c;
